@@ -247,3 +247,34 @@ def describe(res, limit=6):
     for label, st in res.trace[-limit:]:
         out.append("  <%s> %s" % (label, tlaval.to_json(st) if isinstance(st, dict) else st))
     return "\n".join(out)
+
+
+def run_apalache(workdir, module, constants, inv="Inv", length=1, timeout=900):
+    """Apalache bounded check (symbolic, unbounded integers).  Returns (ok, detail): ok False = invariant violated,
+    detail = last state of the counter-example (ITF json) or the log tail.  Tool failures raise MachineryError."""
+    import json as _json
+    cfg = os.path.join(workdir, module + "_apa.cfg")
+    with open(cfg, "w") as f:
+        f.write("INIT Init\nNEXT Next\nINVARIANT %s\n" % inv)
+        for k, v in constants.items():
+            f.write("CONSTANT %s = %s\n" % (k, tlaval.to_tla(v)))
+    out = os.path.join(workdir, "apa_" + module + "_%s" % "_".join(str(v) for v in constants.values()))
+    shutil.rmtree(out, True)
+    t0 = time.time()
+    try:
+        p = subprocess.run(["apalache-mc", "check", "--config=" + cfg, "--length=%d" % length, "--out-dir=" + out,
+                            os.path.join(workdir, module + ".tla")], cwd=workdir, stdout=subprocess.PIPE, stderr=subprocess.STDOUT,
+                           text=True, timeout=timeout)
+    except (subprocess.TimeoutExpired, FileNotFoundError) as e:
+        raise MachineryError("apalache failed on %s: %r" % (module, e))
+    wall = time.time() - t0
+    if "The outcome is: NoError" in p.stdout:
+        return True, {"wall_s": round(wall, 1)}
+    if "The outcome is: Error" in p.stdout and "invariant" in p.stdout:
+        last = None
+        for root, _, files in os.walk(out):
+            if "violation1.itf.json" in files:
+                with open(os.path.join(root, "violation1.itf.json")) as f:
+                    last = _json.load(f)["states"][-1]
+        return False, {"wall_s": round(wall, 1), "counterexample": last}
+    raise MachineryError("apalache failed on %s:\n%s" % (module, "\n".join(p.stdout.splitlines()[-15:])))
